@@ -1609,7 +1609,7 @@ class MacroFunction(Macro):
                         if toadd[0].prev_white != prev_white:
                             cp = copy(toadd[0])
                             cp.prev_white = prev_white
-                            toadd[0].prev_white = prev_white
+                            toadd[0] = cp
                         res_tokens.extend(toadd)
                     else:
                         res_tokens.extend(nexttok)
